@@ -282,14 +282,14 @@ def run(ctx):
             ctx.missing('R07.1', 'anchor', e)
         return
     pv = Prover(ctx.lib)
-    r07_1(ctx, A, pv)
-    r07_2(ctx, A)
-    r07_3(ctx, A)
-    r07_4(ctx, A, pv)
-    r07_5(ctx, A, pv)
+    ctx.step(r07_1, ctx, A, pv)
+    ctx.step(r07_2, ctx, A)
+    ctx.step(r07_3, ctx, A)
+    ctx.step(r07_4, ctx, A, pv)
+    ctx.step(r07_5, ctx, A, pv)
     # R07.6 = R11.3: a buffering sink ends up with all bytes only if the flush is the last I/O on the raw sink
     import rules.C11 as C11
-    C11.r11_3(ctx, A)
+    ctx.step(C11.r11_3, ctx, A)
     ctx.rules['R07.6'] = ctx.rules.pop('R11.3')
     ctx.rules['R07.6']['title'] = 'finish protocol (= R11.3): footer and checksum are written before the final flush of the raw sink, nothing after it'
     for v in ctx.violations:
